@@ -213,8 +213,8 @@ class C10(Property):
         "I/O faults while spilling are not injected",
         "the audit hook sees every file opened for writing by Python code in this process (np.save / pickle dump use open())",
     )
-    cases = {"quick": 2400, "thorough": 30000}
-    min_nontrivial = {"quick": 800, "thorough": 8000}
+    cases = {"quick": 2400, "thorough": 150000}
+    min_nontrivial = {"quick": 800, "thorough": 40000}
 
     def gen(self, rnd, i, tier):
         kinds = list(SLOTS)
